@@ -1038,8 +1038,9 @@ pub fn run_cmd(args: &Args) {
     let mut rep = Report::default();
     let m = if thorough { 8 } else { 1 };
     let plan: Vec<(u64, usize)> = vec![(1, 220 * m), (2, 120 * m), (3, 260 * m), (4, 120 * m), (5, 120 * m), (6, 80 * m)];
+    let only: Option<u64> = if args.rest.first().map(|s| s.as_str()) == Some("only") { args.rest.get(1).and_then(|x| x.parse().ok()) } else { None };
     let mut tasks: Vec<(u64, u64)> = vec![];
-    for (kind, n) in &plan { for i in 0..*n { tasks.push((*kind, i as u64)); } }
+    for (kind, n) in &plan { if only.is_some() && only != Some(*kind) { continue; } for i in 0..*n { tasks.push((*kind, i as u64)); } }
     // interleave kinds so that the heavy ones are spread over the threads
     let tasks = std::sync::Arc::new(tasks);
     let tk = tasks.clone();
